@@ -156,12 +156,13 @@ def main(tier, seed, prop='C05'):
                     states=[s['st'] for s in r['snapshots']])
     spec_set = set(failing['spec'])
     for i in failing['spec']:
-        dec.report(pd.with_minimal('C05', rec(i, 'invariant-violated-by-implementation'),
-                                   dict(ops=obs[i][2], acceptor=obs[i][1]), ('spec', 'c05_spec')))
+        case = dict(ops=obs[i][2], acceptor=obs[i][1])
+        dec.report(pd.with_minimal('C05', pd.replayable(rec(i, 'invariant-violated-by-implementation'), case), case,
+                                   ('spec', 'c05_spec')))
     for i in failing['corr']:
         if i not in spec_set:
-            dec.report(dict(rec(i, 'model-differs'), theorem='correspondence prov_corr (Model.Provider vs real loop)'),
-                       no_input=True)
+            dec.report(dict(pd.replayable(rec(i, 'model-differs'), dict(ops=obs[i][2], acceptor=obs[i][1])),
+                            theorem='correspondence prov_corr (Model.Provider vs real loop)'), no_input=True)
     for name, out in broken:
         dec.report(dict(kind='case-file-broken', file=name, detail=out), no_input=True)
     runner.keep = bool(dec.violations)
@@ -170,7 +171,4 @@ def main(tier, seed, prop='C05'):
 
 
 def replay(rec):
-    print('history:', rec.get('history'))
-    print('recorded result:', rec.get('result'))
-    print('states per iteration:', rec.get('states'))
-    return 0
+    return pd.replay_case('C05', rec, [('corr', 'prov_corr'), ('spec', 'c05_spec')])
